@@ -528,10 +528,15 @@ def run_impl_all(inputs):
     with ThreadPoolExecutor(max_workers=NCPU) as ex:
         futs = {i: ex.submit(run_cli, inputs[i]) for i in cli}
         for i, c in enumerate(inputs):
-            if c['kind'] == 'hist':
-                outs[i] = run_hist(c)
-            elif c['kind'] == 'api':
-                outs[i] = run_api(c)
+            try:
+                if c['kind'] == 'hist':
+                    outs[i] = run_hist(c)
+                elif c['kind'] == 'api':
+                    outs[i] = run_api(c)
+            except Exception as e:  # pylint: disable=broad-except
+                # an exception the writer is not supposed to raise on these histories (finalisation that fails, ...)
+                import traceback
+                outs[i] = {'_exception': '%s: %s' % (type(e).__name__, str(e)[:300]), '_where': traceback.format_exc()[-600:]}
         for i, f in futs.items():
             outs[i] = f.result()
     return outs
